@@ -295,7 +295,7 @@ def gen_l1_mask(t, fam, sform, shape, m0, m1, tier):
     return h
 
 
-def gen_l1_ix(t, fam, sform, shape, m1, tier, K=2):
+def gen_l1_ix(t, fam, sform, shape, m1, tier, K=2, domain="accept"):
     """L1 for the index-vector read structs (symbolic index vectors of length K, repeats allowed) and the x[:, cols] / x[:, mask] structs.
     K = 3 exists because a vector of two entries cannot have an interior: a kernel that infers "consecutive run" from its end points
     (seeded changes C03-3, C04-3) is only wrong for three or more entries."""
@@ -306,8 +306,13 @@ def gen_l1_ix(t, fam, sform, shape, m1, tier, K=2):
     b = [sym_array(t, "src", N), "let sc = Ref::new(%s);" % mk_form(sform, t, "src", shape)]
     pre = []
 
+    oor = []          # reject domain: "this entry addresses no row / column / element"
     def ixdecl(nm, dim):
-        pre.extend("%s[%d] >= 1 && %s[%d] <= %d" % (nm, k, nm, k, dim) for k in range(K))
+        if domain == "accept":
+            pre.extend("%s[%d] >= 1 && %s[%d] <= %d" % (nm, k, nm, k, dim) for k in range(K))
+        else:
+            pre.extend("%s[%d] <= %d" % (nm, k, dim + 2) for k in range(K))
+            oor.extend("%s[%d] == 0 || %s[%d] > %d" % (nm, k, nm, k, dim) for k in range(K))
         return ["let %s: [usize; %d] = kani::any();" % (nm, K), "let %sc = Ref::new(DVector::<usize>::from_vec(%s.to_vec()));" % (nm, nm)]
     if fam == "1DVD":
         b += ixdecl("i0", N)
@@ -363,6 +368,23 @@ def gen_l1_ix(t, fam, sform, shape, m1, tier, K=2):
         shape_ok = "rows == %d && cols == %d" % (R, len(sel1))
     else:
         raise ValueError(fam)
+    if domain == "reject":
+        if not oor:
+            return None
+        pre.append("(" + ") || (".join(oor) + ")")
+        b.append("kani::assume(%s);" % " && ".join("(%s)" % x for x in pre))
+        b.append("kani::cover!(true, \"VP:reached-call\");")
+        b.append("f.solve();")
+        b.append("assert!(false, \"VP:value-for-index-addressing-no-element\");")
+        b.append("forget(f); forget(out); forget(sc);")
+        h = H("c03_l1_%s_%s_%s%dx%d_ix%d_reject" % (fam.lower(), t.lower(), sform.lower(), R, C, K), "    " + "\n    ".join(x for x in b if x), WHERE, domain="reject",
+              key="L1/Access%s/%s/%s/ix%d/reject" % (fam, t, sform, K),
+              desc="Access%s<%s> on a symbolic %dx%d %s with index vectors of %d entries of which at least one is 0 or beyond its dimension: solve() must not "
+                   "return (bounds-check panic = the error the interpreter reports), whatever the other entries are" % (fam, t, R, C, sform, K),
+              functions=["Access%s::solve (src/interpreter/src/stdlib/access/matrix.rs: struct macro + access_* kernel macro)" % fam],
+              bounds="source %dx%d; index entries 0..dim+2, at least one out of range" % (R, C), unwind=max(N, K) + 2, tier=tier, group="L1-ix-reject")
+        h.slice = slice_for(t)
+        return h
     if pre:
         b.append("kani::assume(%s);" % " && ".join(pre))
     b.append("f.solve();")
@@ -467,6 +489,10 @@ def plan(tier, seed):
     for fam in ("2DVDA", "2DVDS", "2DSVD", "2DRRVUU", "2DARV"):
         hs.append(gen_l1_ix(t, fam, "MD", (2, 3), None, "quick"))
         hs.append(gen_l1_ix("u8", fam, "MD", (3, 2), None, "thorough"))
+        # an entry that addresses nothing (0, beyond the dimension) must stop solve(): per-dimension bounds, not "offset inside the storage"
+        hr = gen_l1_ix("u8", fam, "MD", (2, 3), None, "quick" if fam in ("2DRRVUU", "2DVDA", "2DARV") else "thorough", K=2, domain="reject")
+        if hr:
+            hs.append(hr)
         # index vectors of three entries (an interior): 3x3 source so that every dimension has three positions
         hs.append(gen_l1_ix("u8", fam, "MD", (3, 3), None, "quick" if fam in ("2DARV", "2DVDA", "2DSVD") else "thorough", K=3))
     for m1 in ((T_, F_, T_), (F_, T_, F_), (T_, T_, T_), (F_, T_, T_)):
